@@ -8,6 +8,7 @@ import (
 	"bytes"
 	"fmt"
 	"hash/fnv"
+	"os"
 	"runtime"
 	"sort"
 	"strconv"
@@ -105,6 +106,9 @@ type Sim struct {
 	schedGoid int64
 	goConn    map[int64]int
 }
+
+// debugEnabledSets (VERIF_LOG_ENABLED=1) logs the whole enabled set before every step.
+var debugEnabledSets = os.Getenv("VERIF_LOG_ENABLED") != ""
 
 // NewSim creates a simulation driven by the schedule vector.
 func NewSim(sched []uint16) *Sim {
@@ -286,9 +290,6 @@ func (s *Sim) GoroutineConn() int {
 
 // NoteGoroutineConn remembers which connection the calling goroutine works on.
 func (s *Sim) NoteGoroutineConn(conn int) {
-	if !FineGrainedBuild {
-		return
-	}
 	id := goid()
 	s.mu.Lock()
 	if s.goConn == nil {
@@ -322,6 +323,9 @@ func (s *Sim) Inline(f func()) {
 	s.inline.Store(true)
 	defer s.inline.Store(false)
 	f()
+	// whatever f woke runs to its next durable block before parks count again: a goroutine racing
+	// towards a park while the flag flips would park or pass through at random
+	synctest.Wait()
 }
 
 // Count bumps a fault / probe counter.
@@ -628,6 +632,13 @@ func (s *Sim) Run(stop func() bool) error {
 			arg = s.next()
 		}
 		s.Steps++
+		if debugEnabledSets {
+			var ks []string
+			for _, x := range acts {
+				ks = append(ks, x.Desc)
+			}
+			s.Logf("   enabled: %s", strings.Join(ks, " | "))
+		}
 		s.Logf("%d %s %d/%d", s.Steps, a.Desc, arg, len(acts))
 		if s.StepHook != nil {
 			s.StepHook(a.Desc)
